@@ -22,7 +22,8 @@ LEVEL = 'proof'
 RULE = ('projects are drawn from a menu of find_files / directory / header_directory / submodule / options.bfg / pkg_config '
         'calls (include, extra, exclude, filter, cache, dist variants; one or several regenerate outputs); histories are '
         'sequences of edits (add/remove/rename of matching, extra-matching and non-matching files and directories, file '
-        'moves, script comment/semantic edits, no-ops) each followed by the real make; a step is one case, non-trivial when '
+        'moves, script comment/semantic edits, scripts that stop or start searching, a submodule / options.bfg added or removed '
+        'and then edited alone, no-ops) each followed by the real make; a step is one case, non-trivial when '
         'the regeneration step was invoked, distinct by (project, edit kind, decision)')
 TRUSTED = ('GNU Make 4.3 is the real tool (its verdict on whether the regeneration recipe runs is compared with the local '
            'mtime rule of the model at every step)',
@@ -69,6 +70,7 @@ class Proj:
         self.pkg = False         # pkg_config -> several regenerate outputs -> stamp
         self.options = None      # default value of the options.bfg argument, or None (no options.bfg)
         self.submodule = False
+        self.sub_tok = 0         # bumped by an edit of the submodule's script alone (changes what it exports)
         self.tok = 0             # bumped by comment edits
         self.files = {}          # initial tree (non-script files)
         self.extra_scripts = []  # scripts written by a probe edit without touching the other scripts
@@ -105,13 +107,16 @@ class Proj:
             n += 1
             if c.kind == 'find_files':
                 lines.append('%s = find_files(%r%s)' % (v, c.pattern(), kw))
-                if n == 1:
+                if n == 1 and c.ext == 'c':
                     lines.append('srcs += %s' % v)       # only the first search is compiled (no duplicate objects)
             elif c.kind == 'directory':
                 lines.append('%s = directory(%r, include=%r%s)' % (v, c.base, c.pattern(c.base), kw))
             else:
                 lines.append('%s = header_directory(%r, include=%r%s)' % (v, c.base, c.pattern(c.base), kw))
                 lines.append('incs.append(%s)' % v)
+        own = [c for c in self.calls if c.script == 'build.bfg']
+        if not (own and own[0].kind == 'find_files' and own[0].ext == 'c'):
+            lines.append("srcs += ['src/a.c']")              # a script that searches no sources names them itself
         if self.submodule:
             lines.append("sub = submodule('lib')")
             lines.append("srcs += sub['libsrcs']")
@@ -122,9 +127,13 @@ class Proj:
         out['build.bfg'] = '\n'.join(lines) + '\n'
         if self.submodule:
             sl = ['# tok %d' % self.tok]
-            for c in self.calls:
-                if c.script == 'lib/build.bfg':
-                    sl.append('libsrcs = find_files(%r%s)' % (c.pattern('lib'), (', extra=%r' % c.extra) if c.extra else ''))
+            subcalls = [c for c in self.calls if c.script == 'lib/build.bfg']
+            for c in subcalls:
+                sl.append('libsrcs = find_files(%r%s)' % (c.pattern('lib'), (', extra=%r' % c.extra) if c.extra else ''))
+            if not subcalls:
+                sl.append("libsrcs = [source_file('l.c')]")
+            if self.sub_tok:
+                sl.append("command('subcmd%d', cmd=['true'])" % self.sub_tok)      # visible in the build file
             sl.append('export(libsrcs=libsrcs)')
             out['lib/build.bfg'] = '\n'.join(sl) + '\n'
         if self.options is not None:
@@ -295,7 +304,52 @@ NEWEXT = ['c', 'c', 'h', 'txt', 'o~', 'c']
 
 EDIT_KINDS = ['add-file', 'add-file', 'add-file', 'remove-file', 'remove-file', 'rename-file', 'rename-file', 'move-file',
               'add-dir', 'remove-dir', 'rename-dir', 'touch-file', 'script-comment', 'script-comment', 'script-toggle-call',
-              'script-options', 'script-pkg', 'noop']
+              'script-options', 'script-pkg', 'noop',
+              # the scripts' use of builtins changes: all searches dropped, a submodule / options.bfg appears or goes away,
+              # and then only the NEWEST regeneration input is edited
+              'script-drop-finds', 'script-toggle-submodule', 'script-sub-edit', 'script-sub-edit', 'script-add-options']
+
+
+def write_scripts(proj, src, only=None):
+    texts = proj.script_texts()
+    project.write_tree(src, {k: v for k, v in texts.items() if only is None or k in only})
+
+
+def drop_finds(proj, src, sub_too=True):
+    """every search disappears from build.bfg (and from the submodule): the scripts name their sources themselves"""
+    proj.calls = [c for c in proj.calls if c.script != 'build.bfg' and not sub_too]
+    write_scripts(proj, src, ['build.bfg', 'lib/build.bfg'])
+
+
+def add_submodule(proj, src, with_find=False):
+    proj.submodule = True
+    proj.calls = [c for c in proj.calls if c.script == 'build.bfg']
+    if with_find:
+        proj.calls.append(Call('find_files', 'lib', False, 'c', script='lib/build.bfg'))
+    write_scripts(proj, src, ['build.bfg', 'lib/build.bfg'])
+
+
+def remove_submodule(proj, src):
+    proj.submodule = False
+    proj.calls = [c for c in proj.calls if c.script == 'build.bfg']
+    write_scripts(proj, src, ['build.bfg'])
+
+
+def sub_edit(proj, src):
+    """only the submodule's script changes (it declares one more step)"""
+    proj.sub_tok += 1
+    write_scripts(proj, src, ['lib/build.bfg'])
+
+
+def add_options(proj, src):
+    """options.bfg appears together with its use in build.bfg"""
+    proj.options = '1'
+    write_scripts(proj, src, ['build.bfg', 'options.bfg'])
+
+
+def options_edit(proj, src):
+    proj.options = str(int(proj.options) + 1)
+    write_scripts(proj, src, ['options.bfg'])
 
 
 def apply_edit(rng, proj, src, counter, kind=None):
@@ -367,7 +421,7 @@ def apply_edit(rng, proj, src, counter, kind=None):
             ed['removed'] = c.todict()
         else:
             c = rng.choice(CALL_MENU)()
-            proj.calls.insert(rng.randint(1, len(own)), c)
+            proj.calls.insert(rng.randint(min(1, len(own)), len(own)), c)     # a script that stopped searching starts again
             ed['added'] = c.todict()
         ed['script'] = 'build.bfg'
         project.write_tree(src, {'build.bfg': proj.script_texts()['build.bfg']})
@@ -375,6 +429,25 @@ def apply_edit(rng, proj, src, counter, kind=None):
         proj.options = str(int(proj.options) + 1)
         ed['script'] = 'options.bfg'
         project.write_tree(src, {'options.bfg': proj.script_texts()['options.bfg']})
+    elif kind == 'script-drop-finds' and proj.calls:
+        sub_too = rng.random() < 0.6
+        drop_finds(proj, src, sub_too)
+        ed['script'] = 'build.bfg'
+        ed['submodule_too'] = sub_too
+    elif kind == 'script-toggle-submodule' and os.path.exists(os.path.join(src, 'lib/l.c')):
+        if proj.submodule:
+            remove_submodule(proj, src)
+        else:
+            ed['with_find'] = rng.random() < 0.4
+            add_submodule(proj, src, ed['with_find'])
+        ed['script'] = 'build.bfg'
+        ed['submodule'] = proj.submodule
+    elif kind == 'script-sub-edit' and proj.submodule:
+        sub_edit(proj, src)
+        ed['script'] = 'lib/build.bfg'
+    elif kind == 'script-add-options' and proj.options is None and not proj.extra_scripts:
+        add_options(proj, src)
+        ed['script'] = 'options.bfg+build.bfg'
     elif kind == 'script-pkg':
         proj.pkg = not proj.pkg
         ed['script'] = 'build.bfg'
@@ -759,12 +832,18 @@ def history(rep, rng, proj, nsteps, hid, forced_edits=(), label='random'):
                 rep.count('excluded:uncached-search-changed')
                 continue
             # files a fresh configure does not write (left over from an earlier configuration) are not compared
+            # ... except the find cache: a .bfg_find_cache that survives a regeneration of a project that no longer caches
+            # any search is consulted by every later lazy regeneration (a stale .bfg_find_deps is only read when the
+            # Makefile includes it, and the Makefile is compared)
             left = [n for n in post if post[n] is not None and ref.get(n) is None]
+            stale_state = [n for n in left if n == '.bfg_find_cache']
             for n in left:
                 rep.count('soft:leftover-' + n.split('/')[0])
                 post.pop(n)
                 ref.pop(n, None)
             hard, soft = diff_build_files(post, ref)
+            hard += ['%s is left in the build directory (a fresh configure of this tree writes none): the next lazy regeneration '
+                     'will trust it' % n for n in stale_state]
             for t in soft:
                 rep.count('soft:' + t)
             if hard or 'dist-order' in soft:
@@ -901,6 +980,46 @@ def corner_histories():
     # an options.bfg appears in a project that had none
     out.append(('options-file-appears', proj([Call('find_files', 'src', False, 'c')]),
                 [{'kind': 'script-new-options', 'script': 'options.bfg', 'apply': _new_options}, 'noop']))
+    # the project stops searching (no cached find_files call is left) while a new regeneration input appears; then only
+    # that new input is edited: no state file of the searching days may make the regeneration step skip
+    def two():
+        return [Call('find_files', 'src', True, 'c', extra='*.h'), Call('find_files', 'data', True, 'txt')]
+    lib_files = {'lib/l.c': 'int l(void){return 1;}\n', 'data/d.txt': 'd\n'}
+    for pkg in (False, True):
+        tag = '-stamp' if pkg else ''
+        pj = proj(two(), pkg)
+        pj.files.update(lib_files)
+        out.append(('finds-dropped-submodule-added-then-edited' + tag, pj,
+                    [{'kind': 'script-drop-finds+add-submodule', 'script': 'build.bfg',
+                      'apply': lambda p, src: (drop_finds(p, src), add_submodule(p, src))},
+                     {'kind': 'script-sub-edit', 'script': 'lib/build.bfg', 'apply': sub_edit}, 'noop',
+                     {'kind': 'script-sub-edit', 'script': 'lib/build.bfg', 'apply': sub_edit}]))
+    pj = proj(two())
+    pj.files.update(lib_files)
+    out.append(('finds-dropped-options-added-then-edited', pj,
+                [{'kind': 'script-drop-finds+add-options', 'script': 'build.bfg',
+                  'apply': lambda p, src: (drop_finds(p, src), add_options(p, src))},
+                 {'kind': 'script-options', 'script': 'options.bfg', 'apply': options_edit}, 'noop']))
+    pj = proj(two(), True)
+    pj.files.update(lib_files)
+    pj.submodule = True
+    pj.calls.append(Call('find_files', 'lib', False, 'c', script='lib/build.bfg'))
+    out.append(('submodule-search-dropped-readded', pj,
+                [{'kind': 'script-drop-finds', 'script': 'build.bfg', 'apply': lambda p, src: drop_finds(p, src)},
+                 {'kind': 'script-sub-edit', 'script': 'lib/build.bfg', 'apply': sub_edit},
+                 {'kind': 'script-add-submodule-search', 'script': 'lib/build.bfg', 'apply': lambda p, src: add_submodule(p, src, True)},
+                 {'kind': 'add-file', 'path': 'lib/m.c', 'apply': _mk({'lib/m.c': 'int m;\n'})}]))
+    # several cached searches over different directories: a directory-triggered lazy regeneration re-checks every one
+    # of them (first without any change of a result, then with a change in one search at a time)
+    for pkg in (False, True):
+        pj = proj([Call('find_files', 'src', True, 'c', extra='*.h'), Call('find_files', 'data', True, 'txt'),
+                   Call('header_directory', 'include', True, 'h')], pkg)
+        pj.files.update({'data/d.txt': 'd\n', 'data/more/e.txt': 'e\n', 'include/i.h': '\n', 'include/deep/d.h': '\n'})
+        out.append(('several-searches-one-directory-changes' + ('-stamp' if pkg else ''), pj,
+                    [{'kind': 'add-file', 'path': 'data/more/NOTES', 'apply': _mk({'data/more/NOTES': 'not matched\n'})},
+                     {'kind': 'add-file', 'path': 'data/more/f.txt', 'apply': _mk({'data/more/f.txt': 'f\n'})},
+                     {'kind': 'add-file', 'path': 'include/deep/z.h', 'apply': _mk({'include/deep/z.h': '\n'})},
+                     {'kind': 'add-file', 'path': 'src/sub/t.c', 'apply': _mk({'src/sub/t.c': 'int t;\n'})}]))
     # extra files interleaved with included ones: order of the dist list after a run served from the cache
     out.append(('extra-interleaved', proj([Call('find_files', 'src', True, 'c', extra='*.h')], True),
                 [{'kind': 'add-file', 'path': 'src/b.c', 'apply': _mk({'src/b.c': 'int b;\n', 'src/b.h': '\n'})},
